@@ -212,6 +212,7 @@ type jobResult struct {
 	ProbeRuns   int64            `json:"probe_runs"`
 	ProbeFailed int64            `json:"probe_failed"`
 	States      int64            `json:"states_expanded"`
+	PrefixMiss  int64            `json:"prefix_mismatch"`
 	Violations  []jobViol        `json:"violations"`
 	Samples     []explore.Sample `json:"samples"`
 	ReplayOut   string           `json:"replay_outcome,omitempty"`
@@ -313,6 +314,7 @@ func runChild(t *testing.T, jobPath string) {
 	res.Steps, res.StepCapped, res.Teardown = cnt.steps.Load(), cnt.depthCapped.Load(), cnt.teardownStuck.Load()
 	res.ProbeRuns, res.ProbeFailed = cnt.probeRuns.Load(), cnt.probeNodeFailed.Load()
 	res.States = cnt.statesExpanded.Load()
+	res.PrefixMiss = cnt.prefixMismatch.Load()
 	writeJSON(j.Out, res)
 }
 
@@ -476,6 +478,11 @@ func configs(thorough bool) []Cfg {
 		// its Commit to the same replica is lost too (the smallest shape in which a lost Abort is never re-sent)
 		{"rmw|rmw|-", 1, 3, true, "net", "lazy,drops"},
 		// the repository's in-process transport called synchronously (see assumptions)
+		// five replicas, three writers P(n0) A(n1) D(n2), delays only: every continuation of a scripted prefix in
+		// which P has won version 1 (n1 and n3 accepted), its Commit has reached n1 only, n1 has proposed version 2,
+		// n3 has overwritten its promise to P with n1's pre-commit, and n1's section was aborted after its
+		// pre-commit (script kind rmwa) so that its Abort released the replicas (quick: one transport)
+		{"rmw|rmwa|rmw|-|-", 1, 0, true, "direct", "sym,lazy,prefix=override19"},
 		{"rmw|-|-", 2, 0, false, "sync", ""}, {"rmw|rmw", 2, 1, false, "sync", ""},
 		{"rmw|rmw|-", 2, 1, false, "sync", ""}, {"rmw|rmw|-|-|-", 2, 0, false, "sync", ""},
 	}
@@ -502,6 +509,10 @@ func configs(thorough bool) []Cfg {
 			shape{"rmw|rmw|-|-|-", 1, 1, true, "", "sym"},
 			shape{"rmw|rmw|-|-|-", 2, 0, true, "", "sym,lazy"},
 			shape{"rmw|rmw|rmw|-|-", 1, 1, true, "", "sym,lazy,drop-commit"},
+			// the same with shorter prefixes (more left to the enumeration; the last two run into the time cap)
+			shape{"rmw|rmwa|rmw|-|-", 1, 0, true, "", "sym,lazy,prefix=override16"},
+			shape{"rmw|rmwa|rmw|-|-", 1, 0, true, "direct", "sym,lazy,prefix=override12"},
+			shape{"rmw|rmwa|rmw|-|-", 1, 0, true, "direct", "sym,lazy,prefix=override7"},
 			shape{"rmw+rmw|rmw+rmw", 3, 1, false, "sync", ""},
 			shape{"rmw|rmw|rmw", 3, 1, false, "sync", ""},
 			shape{"rmw+rmw|blind|rmw|-", 2, 1, false, "sync", ""},
@@ -534,6 +545,9 @@ func configs(thorough bool) []Cfg {
 					c.LazyTimers = true
 				case "split":
 					c.SplitReceive = true
+				case "prefix=override7", "prefix=override12", "prefix=override16", "prefix=override19":
+					n, _ := strconv.Atoi(strings.TrimPrefix(o, "prefix=override"))
+					c.Prefix = append([]string(nil), overridePrefix[:n]...)
 				case "sibling":
 					c.Faults = []string{"sibling-abort"}
 				case "drops":
@@ -551,6 +565,14 @@ func configs(thorough bool) []Cfg {
 		}
 	}
 	return out
+}
+
+// overridePrefix: P = n0, A = n1, D = n2, passive n3 n4 (see the shape's comment in configs)
+var overridePrefix = []string{
+	"op:0", "op:0", "op:0", "rpc:0>1:PreCommit", "rpc:0>3:PreCommit", "op:0", "rpc:0>1:Commit", // 7: P won v1, A has it
+	"op:1", "op:1", "op:1", "rpc:1>0:PreCommit", "rpc:1>3:PreCommit", // 12: A proposed v2, n3 overwrote its promise
+	"rpc:1>4:PreCommit", "rpc:1>2:PreCommit", "op:1", "rpc:1>3:Abort", // 16: A aborted after its pre-commit, n3 released
+	"rpc:1>0:Abort", "rpc:1>2:Abort", "rpc:1>4:Abort", // 19: all of A's Aborts delivered
 }
 
 // splitReceiveSourceOK tells whether receiveFiltered still reads as the text VerifTwoPCFilterHalf was
@@ -609,8 +631,11 @@ func costClass(c *Cfg) int {
 			}
 		}
 	}
-	if c.Transport == "sync" {
+	if c.Transport == "sync" || len(c.Prefix) >= 19 {
 		return 0
+	}
+	if len(c.Prefix) >= 16 {
+		return 1
 	}
 	switch {
 	case n >= 5 && !(len(c.Faults) == 1 && c.MaxAttempts == 1 && writers == 2):
@@ -888,7 +913,7 @@ func TestCheck(t *testing.T) {
 				add(hres.Viol{Key: v.Key, What: v.What, Replay: replay{Cfg: *cfg, Choices: v.Choices, Trace: v.Trace}})
 			}
 			perCfg = append(perCfg, map[string]any{"cfg": cfg.name(), "executions": r.Executions, "pruned_on_revisited_state": r.Pruned, "distinct_outcomes": r.Outcomes,
-				"max_choice_points": r.MaxDepth, "choice_states_expanded": r.States, "exhaustive": r.Exhaustive, "wall_s": fmt.Sprintf("%.1f", r.WallS), "violation_keys": keys})
+				"max_choice_points": r.MaxDepth, "choice_states_expanded": r.States, "prefix_not_applicable_runs": r.PrefixMiss, "exhaustive": r.Exhaustive, "wall_s": fmt.Sprintf("%.1f", r.WallS), "violation_keys": keys})
 			for _, s := range r.Samples {
 				if len(samples) < 6 && (len(s.Choices) > 40 || i == len(cfgs)-1) {
 					samples = append(samples, map[string]any{"cfg": cfg.name(), "choices": s.Choices, "outcome": s.Outcome})
